@@ -1,5 +1,6 @@
 import PyrefactModel.C12.Match
 import PyrefactModel.C12.SelfMatch
+import PyrefactModel.C12.Windows
 /-!
 # C12 — pattern matching agrees with its declarative semantics (property theorems)
 
@@ -43,6 +44,30 @@ example : WF (.node "Call" [("func", .atom "Name:f"), ("args", .list [.atom "int
 /-- a wildcard without constraints matches everything; a tree never matches a literal of another text -/
 example (key : Key) (isinst : String → List String → Bool) (v : Val) :
     matchT key isinst 1 v .anything = some [] := by simp [matchT]
+
+/-- **Statement-sequence search tries every position of a body, each once, in source order, and nothing else**: the tuples
+that `walk_sequence` builds with `zip(*(body[i : len(body) - k + i + 1] for i in range(k)))` are exactly the contiguous
+windows of `k` statements — for every body and every pattern length `k ≥ 1` (a body shorter than the pattern has none,
+also under Python's rule for the negative slice bound that arises then) -/
+theorem sequence_windows_exact (body : List Nat) (k : Nat) (hk : 1 ≤ k) (w : List Nat) :
+    w ∈ windowsPy body k ↔ ∃ j, j + k ≤ body.length ∧ w = (body.drop j).take k := by
+  rw [windowsPy_eq body k hk]
+  unfold windows
+  split
+  · simp only [List.mem_map, List.mem_range]
+    constructor
+    · rintro ⟨j, hj, rfl⟩; exact ⟨j, by omega, rfl⟩
+    · rintro ⟨j, hj, rfl⟩; exact ⟨j, by omega, rfl⟩
+  · simp only [List.not_mem_nil, false_iff, not_exists, not_and]
+    intro j hj; omega
+
+/-- … and their number is `len - k + 1`: no position is tried twice -/
+theorem sequence_windows_count (body : List Nat) (k : Nat) (hk : 1 ≤ k) (hlen : k ≤ body.length) :
+    (windowsPy body k).length = body.length + 1 - k := by
+  rw [windowsPy_eq body k hk]; simp [windows, hlen]
+
+example : windowsPy [10, 11, 12, 13] 2 = [[10, 11], [11, 12], [12, 13]] := by decide
+example : windowsPy [10, 11, 12, 13, 14] 8 = [] := by decide
 
 /-- **Completeness is false in general** (no backtracking across nested lists): the list
 `[1, 2, 3]` against `[*, x, *]` followed by a second occurrence `x := 2` — the first admissible split binds
